@@ -52,10 +52,16 @@ class ExprMixin:
         """value of n if its evaluation neither branches, raises, nor changes the state; else None"""
         probe = st.fork()
         npc, heap, ap = len(probe.pc), dict(probe.heap), probe.ap
+        nobl = len(self.obls)
         try:
             r = self.ev(n, probe)
         except Unsupported:
             raise
+        if len(self.obls) != nobl:
+            # the evaluation generated obligations (a callee's precondition, ...): it must be redone under the guard of
+            # the enclosing and/or, where those obligations and the facts they license belong
+            del self.obls[nobl:]
+            return None
         if len(r) != 1 or r[0][1] != 'ok':
             return None
         s = r[0][0]
